@@ -6,11 +6,14 @@ props = {}
 for l in open(os.path.join(ROOT, "properties.jsonl")):
     p = json.loads(l); props[p["id"]] = p
 checks, claimed = [], set()
+# only properties whose check I have seen pass on the unchanged tree are claimed
+CLAIMED = set(json.load(open(os.path.join(ROOT, "props", "claimed.json"))))
 for path in sorted(glob.glob(os.path.join(ROOT, "props", "C*.json"))):
     c = json.load(open(path))
-    if not c.get("claimed", True):
+    pid = c["id"]
+    if pid not in CLAIMED:
         continue
-    pid = c["id"]; claimed.add(pid)
+    claimed.add(pid)
     checks.append({
         "property_id": pid,
         "quick_cmd": f"./check {pid} --tier quick",
